@@ -265,8 +265,10 @@ type Client struct {
 	AfterDeliver func(rec *TxRec)
 	// Dead makes every call fail: the process behind this client is gone.
 	Dead bool
-	// Trace, if set, is called at the start of every RPC call.
+	// Trace and Watch, if set, are called at the start of every RPC call
+	// (two independent observers).
 	Trace func(method string)
+	Watch func(method string)
 
 	NBlock, NBlockResults, NInfo, NBroadcast, NRefused int
 }
@@ -309,6 +311,9 @@ func (cl *Client) Block(_ context.Context, height *int64) (*coretypes.ResultBloc
 	if cl.Trace != nil {
 		cl.Trace("Block")
 	}
+	if cl.Watch != nil {
+		cl.Watch("Block")
+	}
 	latest := cl.chain.Height()
 	h := latest
 	if height != nil {
@@ -330,6 +335,9 @@ func (cl *Client) BlockResults(_ context.Context, height *int64) (*coretypes.Res
 	cl.NBlockResults++
 	if cl.Trace != nil {
 		cl.Trace("BlockResults")
+	}
+	if cl.Watch != nil {
+		cl.Watch("BlockResults")
 	}
 	latest := cl.chain.Height()
 	h := latest
@@ -359,6 +367,9 @@ func (cl *Client) BlockchainInfo(_ context.Context, minHeight, maxHeight int64) 
 	if cl.Trace != nil {
 		cl.Trace("BlockchainInfo")
 	}
+	if cl.Watch != nil {
+		cl.Watch("BlockchainInfo")
+	}
 	latest := cl.chain.Height()
 	if maxHeight <= 0 || maxHeight > latest {
 		maxHeight = latest
@@ -383,6 +394,9 @@ func (cl *Client) BroadcastTxCommit(_ context.Context, tx tmtypes.Tx) (*coretype
 	cl.NBroadcast++
 	if cl.Trace != nil {
 		cl.Trace("BroadcastTxCommit")
+	}
+	if cl.Watch != nil {
+		cl.Watch("BroadcastTxCommit")
 	}
 	if cl.SendBudget == 0 {
 		cl.NRefused++
